@@ -19,6 +19,7 @@ for s in "${seeds[@]}"; do
     grep -q "\"property_id\": \"$p\"" MANIFEST.json || continue
     out=$(VERIF_REPO=$r bin/govc check $p quick 2>&1); rc=$?
     n=$(echo "$out" | grep -c '^VIOLATION')
+    if [ $rc -ne 0 ] && [ $rc -ne 1 ]; then echo "$s: ENGINE-ERROR on $p (exit $rc): $(echo "$out" | tail -1 | cut -c1-160)"; fi
     if [ $n -gt 0 ]; then caught="$caught $p($n)"; first=$(echo "$out" | grep '^VIOLATION' | head -1 | sed 's/.*obligation=//' | cut -c1-110); fi
   done
   if [ -n "$caught" ]; then echo "$s: CAUGHT by$caught  e.g. $first"; else echo "$s: MISSED (checked: $props)"; fi
